@@ -23,6 +23,8 @@ def mk(n, kind=0):
     cols = ["name", "a", "b", "txt"]
     if kind == 1:
         data["sc"] = 42.5; data["title"] = "hello"
+        # non-column entries of other Python types: numpy scalars (what col.max() / np.sum(col) give) and an array that is not a column
+        data["len"] = np.float64(6.0); data["cnt"] = np.int64(2); data["mat"] = np.eye(2)
     if kind == 2:
         data["pos"] = np.arange(2 * n, dtype=float).reshape(n, 2)       # one vector per row
         cols = cols + ["pos"]
